@@ -229,7 +229,8 @@ def describe(tier):
     return {
         "alphabet": "operations add(f) for f in {} and save+re-open, on cassette and disk host files; big-cassette histories with 65535-byte "
                     "files of 5 content patterns (incl. planted directory entries) crossing 161,280 bytes, and three files whose cassette image is "
-                    "exactly 161,280 bytes".format([C.brief(f) for f in ALPHA]),
+                    "exactly 161,280 bytes; fill-to-capacity histories (2-, 3-, 5-, 9-granule files and a mixture, one save/re-open per file, until the disk "
+                    "refuses)".format([C.brief(f) for f in ALPHA]),
         "bound": "all operation sequences of length <= {} (no leading or doubled save)".format(4 if tier == "thorough" else 3),
         "oracle": "after every save: the host file, parsed by the independent reader and re-opened by VirtualFile with the kind sniffed, lists "
                   "exactly the model list in order with identical fields; the kind recognised is the kind written; a save that cannot fit raises and "
